@@ -22,7 +22,7 @@ CLAIMED["C06"] = {
 
 CLAIMED["C02"] = {
     "technique": "Lean 4 proofs that the _binary_op pipeline commutes with the physical-quantity semantics (phys) for all operands; unit tables regenerated from array.py and re-proved each run; operand-pair correspondence",
-    "text": "C02_add_sub / C02_mul_div / C02_neg / C02_pow / C02_reciprocal / C02_incompatible_raises are proved for all shapes (broadcasting), dtypes, unit pairs and unit tables T; generated_keeps_numeric / generated_applies re-prove on every run that the dtype test and APPLY_OP_TO_UNIT extracted from the current array.py satisfy the theorems' hypotheses (C02_*_current). The model is tied to /repo by ~900 (quick) / 20000 (thorough) generated expressions over operand kinds, dtypes, shapes and unit pairs, exact lane compared as rationals.",
+    "text": "C02_add_sub / C02_mul_div / C02_neg / C02_pow / C02_reciprocal / C02_incompatible_raises are proved for all shapes (broadcasting), dtypes, unit pairs and unit tables T; generated_keeps_numeric / generated_applies re-prove on every run that the dtype test and APPLY_OP_TO_UNIT extracted from the current array.py satisfy the theorems' hypotheses (C02_*_current). The model is tied to /repo by ~900 (quick) / 20000 (thorough) generated expressions over operand kinds, dtypes, shapes and unit pairs, exact lane compared as rationals. C02_broadcast_reads_in_range (for shapes that broadcast, every flat index of the result is read from an element that exists in each operand: bshape_compat, bidx_lt).",
     "note": "trusted: Lean kernel + standard axioms; numpy promotion/broadcast tables and pint's registry are modelled (unit factors read from pint at run time); float rounding excluded by the exact lane, bounded by 1e-9 in the tolerant lane",
     "design_ref": "5 C02",
 }
